@@ -1,0 +1,15 @@
+//go:build verif
+
+package lql
+
+import (
+	"time"
+
+	"github.com/logrange/logrange/pkg/scanner/parser/date"
+)
+
+// VerifParseLqlDateTime exposes parseLqlDateTime to the verification harness (C20).
+func VerifParseLqlDateTime(dt string) (time.Time, error) { return parseLqlDateTime(dt) }
+
+// VerifLqlFormats lists the formats of the LQL date-time parser, in order (C20).
+func VerifLqlFormats() []string { return date.VerifParserFormats(dateTimeParser) }
